@@ -251,6 +251,24 @@ def main():
             rep.violation("member-lengths:%x" % hash_str(src), {
                 "why": "lengths and elements of inner arrays reached along access paths: expected the program to print %s, got %s" % (want, ans[:200]),
                 "source": src, "harness_request": "alpha\trun\tmain.pn\t" + esc(src), "oracle": "checks/agggen.py access_program"})
+    # sizes are per module: two modules with their own private structure of the same name (other members, another size), as
+    # constants, in functions and through their members; both file orders.  Layout: {u64, u64, [3]u8} = 24, {u16} = 2.
+    libsrc = ("struct Header\n{\n\ta: u64,\n\tb: u64,\n\tc: [3]u8,\n}\nconst LIB_SIZE: usize = |:Header|;\npub fn lib_size() -> usize\n{\n"
+              "\tvar h = Header { a: 1, b: 2, c: [3, 4, 5] };\n\treturn: LIB_SIZE + |:Header| + (h.c[2] as usize)\n}\n")
+    mainsrc = ('import "lib.pn";\nstruct Header\n{\n\tx: u16,\n}\nconst MAIN_SIZE: usize = |:Header|;\nfn main() -> i32\n{\n'
+               "\tvar h = Header { x: 7 };\n\treturn: (MAIN_SIZE + |:Header| + lib_size() + (h.x as usize)) as i32\n}\n")
+    for order in ((("lib.pn", libsrc), ("main.pn", mainsrc)), (("main.pn", mainsrc), ("lib.pn", libsrc))):
+        rq = "alpha\trun\t" + "\t".join(x for n_, s_ in order for x in (n_, esc(s_)))
+        ha = run_harness_serial([rq])[0]
+        hh_, hd_ = kv(ha)
+        total += 1
+        dist["sizes-per-module"] += 1
+        if hh_ == "ok" and hd_.get("status") == str(2 + 2 + 24 + 24 + 5 + 7):
+            agreeing += 1
+        else:
+            rep.violation("sizes-per-module:" + order[0][0], {
+                "why": "two modules with their own private `struct Header` (24 and 2 bytes): expected exit status 64 "
+                       "(2 + 2 + 24 + 24 + 5 + 7), got " + ha[:200], "files": dict(order), "harness_request": rq})
     report_broken_proof(rep)
     rep.coverage.update({
         "evaluations": total,
